@@ -880,6 +880,22 @@ func (x *Exec) evalSpecFn(sf *SpecFunc, e *Expr, env *Env) Val {
 		if len(ts) == 0 {
 			r = sf.Name
 		}
+		if len(hks) > 0 && env.st != nil && strings.HasPrefix(env.st.top, "top_") {
+			// remember the allocator top at which this heap version was first read by sf (reads framing)
+			top := env.st.top
+			if env.useOld && env.old != nil {
+				top = env.old.top
+			}
+			key := sf.Name + " " + strings.Join(ts[len(e.Args):], " ")
+			x.P.mu.Lock()
+			if x.P.tupleTop == nil {
+				x.P.tupleTop = map[string]string{}
+			}
+			if _, ok := x.P.tupleTop[key]; !ok {
+				x.P.tupleTop[key] = top
+			}
+			x.P.mu.Unlock()
+		}
 		switch sf.RetType {
 		case "bool":
 			return specBool(r)
